@@ -292,17 +292,76 @@ pub fn run(tier: Tier) -> Report {
     }
     run_family("edit-histories", scs, false, &mut fails);
 
+    // process level: the same sessions against the release binary (real stdio, real worker
+    // stacks of 2 MiB): nesting ladders and a fixed sub-family of the documents above; the
+    // binary must stay alive, answer every request, and answer exactly like the in-process run
+    let mut proc_docs: Vec<Scenario> = vec![];
+    for d in [1usize, 8, 32] {
+        proc_docs.push(plain(format!("proc main() {{ i := {}1{}; }}", "(".repeat(d), ")".repeat(d))));
+        proc_docs.push(plain(format!("proc main() {{ {} ; {} }}", "{".repeat(d), "}".repeat(d))));
+        proc_docs.push(plain(format!("proc main() {{ {} ; }}", "if (1) ".repeat(d))));
+        proc_docs.push(plain(format!("type T = {} int;", "array [1] of ".repeat(d))));
+        proc_docs.push(plain(format!("proc main() {{ a{} := 1; }}", "[1]".repeat(d))));
+        proc_docs.push(plain(format!("proc main() {{ {} }}", "if (1) ; else ".repeat(d))));
+    }
+    let toks3 = Strings::new(SIGMA_TOK, 3);
+    for i in (0..toks3.count()).step_by(tier.pick(401, 53)) {
+        proc_docs.push(plain(toks3.get_joined(i, " ")));
+    }
+    for (i, it) in items.iter().enumerate().step_by(tier.pick(211, 37)) {
+        let pr = print_program(&it.program);
+        proc_docs.push(plain(render(&pr.toks, ALL_LAYOUTS[i % ALL_LAYOUTS.len()], &[], &|_| String::new()).text));
+    }
+    let proc_fails: Vec<Failure> = proc_docs
+        .par_iter()
+        .filter_map(|sc| {
+            let reqs = all_requests(&sc.text, URI, false);
+            let (mut s, ids, _) = build_session(sc, &reqs);
+            s.msgs.push(crate::session::request(1_000_000, "shutdown", Value::Null));
+            s.msgs.push(crate::session::notification("exit", Value::Null));
+            let inproc = s.run();
+            let o = crate::procdrv::run_chunks(&[s.bytes()], false, std::time::Duration::from_secs(20));
+            // completion items come out of a HashMap whose iteration order differs per process:
+            // lists of labelled items are compared as multisets
+            let canon = |mut v: Value| -> Value {
+                if let Some(a) = v.get_mut("result").and_then(|r| r.as_array_mut()) {
+                    if a.iter().all(|x| x.get("label").is_some()) {
+                        a.sort_by_key(|x| x.to_string());
+                    }
+                }
+                v
+            };
+            let strip = |fr: &[Value]| -> Vec<Value> { fr.iter().filter(|f| f.get("method").is_none() && f.get("id").and_then(|i| i.as_i64()) != Some(0)).cloned().map(canon).collect() };
+            let bad = if o.timed_out {
+                Some("the binary did not exit within 20 s".to_string())
+            } else if o.signaled || o.exit_code != Some(0) {
+                Some(format!("the binary ended with status {:?} (signal: {})", o.exit_code, o.signaled))
+            } else if let Some(e) = &o.frame_error {
+                Some(format!("malformed output: {}", e))
+            } else if strip(&o.frames).len() != ids.len() + 1 {
+                Some(format!("{} responses for {} requests", strip(&o.frames).len(), ids.len() + 1))
+            } else if strip(&o.frames) != strip(&inproc.frames) {
+                Some("the binary's responses differ from the in-process run of the same session".to_string())
+            } else {
+                None
+            };
+            bad.map(|d| Failure { key: "process:binary-session".into(), case: json!({"text": sc.text, "edits": sc.edits, "mode": "process"}), detail: d })
+        })
+        .collect();
+    fams.push(json!({"family": "binary-conformance", "documents": proc_docs.len(), "failing": proc_fails.len()}));
+    let n_proc = proc_docs.len() as u64;
+    fails.extend(proc_fails);
     rep.states = docs.load(Ordering::Relaxed);
     rep.transitions = calls.load(Ordering::Relaxed);
+    rep.traces_validated = n_proc;
     rep.evaluations = rep.transitions;
-    rep.traces_validated = rep.states;
     rep.distinct_nontrivial = rep.states;
     rep.rule = "documents: all sequences of <= k tokens of the token alphabet, all strings of <= k characters of the extended character alphabet, generated valid programs in 6 layouts, every single-token deletion/replacement/insertion on generated programs, nesting ladders to depth 32, and edit histories; per document the 13 supported request methods at every (line, UTF-16 column) incl. overshooting positions; a case fails when run() errs/panics or a request gets no well-formed result response in request order; distinct_nontrivial = distinct documents/histories".into();
     rep.bounds = json!({"families": fams, "token_alphabet": SIGMA_TOK, "char_alphabet": alpha});
     rep.sample(json!({"text": "proc printi", "request": "textDocument/implementation @0:6"}));
     rep.sample(json!({"text": "a := ( ;", "edits": [[0, 1, "if"]]}));
     rep.assumptions = vec![
-        "in-process run() on a current-thread runtime with in-memory stdio (tokio shim); process-level liveness is covered by C18".into(),
+        "in-process run() on a current-thread runtime with in-memory stdio (tokio shim); a fixed sub-family and the nesting ladders are replayed against the release binary (liveness, responses identical to the in-process run)".into(),
         "nesting bounded to 32; the release binary overflows its worker stack at several hundred nested constructs (outside the claimed bound)".into(),
     ];
     rep.failures = fails;
